@@ -262,7 +262,7 @@ func checkCase(st *state, d *dog, sp *Spec, c Case) {
 			fmt.Sprintf("same %d input bytes, spare capacity filled with 0xA5 vs 0x3C: outcomes differ, so the decoder read outside the received bytes.\n A: %s\n B: %s\n frame %q, %s; input=%s",
 				len(in), clip(a.out, 400), clip(b.out, 400), c.Frame, c.Desc, clip(c.Hex, 600)), c)
 	}
-	if measure {
+	if measure && kindOf(a.out) != "livelock" { // (a call the harness itself cut off as never-returning is not measured)
 		limit := uint64(allocSlack + allocPerByte*len(in))
 		if vreport.Replaying() {
 			// hysteresis: a case flagged by the search (> limit) is confirmed at 7/8 of the limit, so that a
